@@ -317,6 +317,9 @@ def m_ledgers(hist, rec):
                 g.fee_accrued += fee
             else:
                 ok = ok and paid_t == fee and all(m["to"] == tre for m in pays) and sa["total_fees"] == sb["total_fees"]
+            if int(sb["total_liquid_stake_token"]) == 0:
+                report(hist, "C11", "reward_without_lst", {"variant": var},
+                       "reward %d accepted while no LST exists (totals before: %s)" % (amt, sb), rec)
             if not ok:
                 report(hist, "C11", "reward_split", {"variant": var, "treasury": tre is not None},
                        "reward %d fee %d: forwarded %d, treasury %d, totals %s -> %s" % (amt, fee, fwd, paid_t, sb, sa), rec)
@@ -424,6 +427,36 @@ def m_ledgers(hist, rec):
     rq = q(a, "reply_queue")
     if rq is not None and rq["ibc_queue"]:
         report(hist, "C07", "P1_reply_queue", {}, "reply queue not empty between transactions", rec)
+
+
+def m_handler_level(hist, rec):
+    """C04 on what the handler *returned*, even when the transaction was rolled back afterwards (the
+    chain refuses e.g. a zero mint, so a handler that accepts one never shows in a committed state)"""
+    c = first_exec(rec)
+    b = rec["before"]
+    if c is None or rec["committed"] or c["outcome"] != "ok" or b is None or cfg(b) is None or state(b) is None:
+        return
+    var = variant(c["msg"])
+    if var != "liquid_stake":
+        return
+    sb = state(b)
+    D = cfg(b)["protocol_chain_config"]["ibc_token_denom"]
+    pay = [x for x in (c["funds"] or []) if x["denom"] == D]
+    if len(pay) != 1:
+        return
+    paid = int(pay[0]["amount"])
+    n0, l0 = int(sb["total_native_token"]), int(sb["total_liquid_stake_token"])
+    mints = [m for m in c["msgs"] if m["k"] == "mint"]
+    minted = mints[0]["coin"]["amount"] if mints else 0
+    nn = 0 if (l0 == 0 and n0 != 0) else n0
+    want = paid if nn == 0 else l0 * paid // nn
+    if minted != want:
+        report(hist, "C04", "mint_floor", {"variant": var, "rolled_back": True}, "handler minted %d, floor formula gives %d" % (minted, want), rec)
+    minstake = int(cfg(b)["protocol_chain_config"]["minimum_liquid_stake_amount"])
+    exp = c["msg"]["liquid_stake"].get("expected_mint_amount")
+    if paid < minstake or minted == 0 or (exp is not None and minted < int(exp)):
+        report(hist, "C04", "stake_guards", {"variant": var, "rolled_back": True},
+               "handler accepted a stake of %d minting %d (minimum %d, expected %s) at totals %d/%d" % (paid, minted, minstake, exp, n0, l0), rec)
 
 
 def m_lifecycle(hist, rec):
@@ -818,4 +851,4 @@ def m_tokenfactory(hist, rec):
             report(hist, "C19", "stray_tokenfactory", {"variant": var, "build": hist.build}, "%s emits token-factory messages %s" % (var, tf), rec)
 
 
-ALL = [m_flags, m_tokenfactory, m_config, m_no_panic, m_oracle, m_ledgers, m_lifecycle, m_auth, m_recover, m_transfer_shape]
+ALL = [m_flags, m_tokenfactory, m_config, m_no_panic, m_oracle, m_ledgers, m_handler_level, m_lifecycle, m_auth, m_recover, m_transfer_shape]
